@@ -18,3 +18,6 @@ func Gate(point string, kv ...any) {}
 
 // Fail reports whether a fault should be injected at the named point.
 func Fail(point string) bool { return false }
+
+// ID returns a correlation id for one operation (always 0 without the tag).
+func ID() uint64 { return 0 }
